@@ -77,10 +77,13 @@ section generic
 variable {σ : Type} (S : Source σ)
 
 def pullTok (b : Bool) (p : Parser σ) : Option Token × Parser σ :=
-  let (t, s) := S.pull b p.src
-  (t, { p with src := s })
+  let r := S.pull b p.src
+  (r.1, { p with src := r.2 })
 
 def addErr (e : ErrLine) (p : Parser σ) : Parser σ := { p with src := S.addErr e p.src }
+
+/-- `p.statementDepth = d` -/
+def setDepth (d : Int) (p : Parser σ) : Parser σ := { p with depth := d }
 
 /-- `push(t...)`: the last one listed is returned first -/
 def push (ts : List Token) (p : Parser σ) : Parser σ := { p with tokens := ts.reverse ++ p.tokens }
@@ -95,125 +98,133 @@ continues has taken two tokens from the source. -/
 def concatLoop (b : Bool) : Nat → Token → Parser σ → Token × Parser σ
   | 0, t, p => (t, { p with fault := .outOfFuel })
   | f + 1, t, p =>
-    let (nt, p) := pullTok S b p
-    match nt with
-    | none => (t, p)
+    let r := pullTok S b p
+    match r.1 with
+    | none => (t, r.2)
     | some nt =>
       if nt.code = Code.unquoted then
-        if nt.text ≠ [43] then (t, push [nt] p)
+        if nt.text ≠ [43] then (t, push [nt] r.2)
         else
-          let (nnt, p) := pullTok S b p
-          match nnt with
-          | none => (t, push [nt] p)
+          let r2 := pullTok S b r.2
+          match r2.1 with
+          | none => (t, push [nt] r2.2)
           | some nnt =>
-            if nnt.code = Code.string then concatLoop b f { t with text := t.text ++ nnt.text } p
-            else (t, push [nnt, nt] p)
-      else (t, push [nt] p)
+            if nnt.code = Code.string then concatLoop b f { t with text := t.text ++ nnt.text } r2.2
+            else (t, push [nnt, nt] r2.2)
+      else (t, push [nt] r.2)
 
 /-- `parser.next` with `lex.inPattern = b` -/
 def next (b : Bool) (fuel : Nat) (p : Parser σ) : Option Token × Parser σ :=
   match p.tokens with
   | t :: ts => (some t, { p with tokens := ts })
   | [] =>
-    let (t, p) := pullTok S b p
-    match t with
-    | none => (none, p)
+    let r := pullTok S b p
+    match r.1 with
+    | none => (none, r.2)
     | some t => if t.code = Code.string then
-                  let (t, p) := concatLoop S b fuel t p
-                  (some t, p)
-                else (some t, p)
+                  let c := concatLoop S b fuel t r.2
+                  (some c.1, c.2)
+                else (some t, r.2)
+
+/-- the keyword `pattern` -/
+def patternKw : List UInt8 := [112, 97, 116, 116, 101, 114, 110]
+
+/-- `nextStatement`, from `p.lex.inPattern = t.Text == "pattern"` to the end of the first
+`switch`: the optional argument and the token after it -/
+def fetchArg (kw : Token) (f : Nat) (p : Parser σ) : (Bool × List UInt8) × Option Token × Parser σ :=
+  let r := next S (kw.text = patternKw) f p
+  match r.1 with
+  | some a =>
+    if a.code = Code.string || a.code = Code.unquoted then
+      let r2 := next S false f r.2
+      ((true, a.text), r2.1, r2.2)
+    else ((false, []), r.1, r.2)
+  | none => ((false, []), none, r.2)
+
+def mkStmt (kw : Token) (arg : Bool × List UInt8) (subs : List Statement) : Statement :=
+  { keyword := kw.text, hasArg := arg.1, arg := arg.2, file := kw.file, line := kw.line, col := kw.col,
+    subs := subs }
 
 mutual
 /-- `nextStatement` -/
 def nextStatement : Nat → Parser σ → NS × Parser σ
   | 0, p => (.eof, { p with fault := .outOfFuel })
   | f + 1, p =>
-    let (t, p) := next S false f p
-    match t with
-    | none => (.eof, p)
+    let r := next S false f p
+    match r.1 with
+    | none => (.eof, r.2)
     | some t =>
       if t.code = Code.punct 125 then
-        (.brace t.file t.line t.col, { p with depth := p.depth - 1 })
+        (.brace t.file t.line t.col, setDepth (r.2.depth - 1) r.2)
       else if t.code ≠ Code.unquoted then
-        (.stmt ignoreMe, addErr S (tokenErr t .keywordNotUnquoted) p)
+        (.stmt ignoreMe, addErr S (tokenErr t .keywordNotUnquoted) r.2)
       else
-        let kw := t
-        let (t, p) := next S (kw.text = [112, 97, 116, 116, 101, 114, 110]) f p
-        let (hasArg, arg, t, p) :=
-          match t with
-          | some a =>
-            if a.code = Code.string || a.code = Code.unquoted then
-              let (t, p) := next S false f p
-              (true, a.text, t, p)
-            else (false, [], t, p)
-          | none => (false, [], t, p)
-        match t with
-        | none => (.eof, addErr S { file := kw.file, pos := none, cls := .unexpectedEOF } p)
-        | some t =>
-          if t.code = Code.punct 59 then
-            (.stmt { keyword := kw.text, hasArg := hasArg, arg := arg, file := kw.file, line := kw.line,
-                     col := kw.col, subs := [] }, p)
-          else if t.code = Code.punct 123 then
-            let (subs, p) := blockLoop f [] { p with depth := p.depth + 1 }
-            match subs with
-            | none => (.eof, p)
-            | some subs =>
-              (.stmt { keyword := kw.text, hasArg := hasArg, arg := arg, file := kw.file, line := kw.line,
-                       col := kw.col, subs := subs }, p)
-          else (.stmt ignoreMe, addErr S (tokenErr t .expectedSemiOrBrace) p)
+        let a := fetchArg S t f r.2
+        match a.2.1 with
+        | none => (.eof, addErr S { file := t.file, pos := none, cls := .unexpectedEOF } a.2.2)
+        | some e =>
+          if e.code = Code.punct 59 then (.stmt (mkStmt t a.1 []), a.2.2)
+          else if e.code = Code.punct 123 then
+            let b := blockLoop f [] (setDepth (a.2.2.depth + 1) a.2.2)
+            match b.1 with
+            | none => (.eof, b.2)
+            | some subs => (.stmt (mkStmt t a.1 subs), b.2)
+          else (.stmt ignoreMe, addErr S (tokenErr e .expectedSemiOrBrace) a.2.2)
 
 /-- the `for` loop after `{`: `none` = end of input reached (`return nil`) -/
 def blockLoop : Nat → List Statement → Parser σ → Option (List Statement) × Parser σ
   | 0, _, p => (none, { p with fault := .outOfFuel })
   | f + 1, acc, p =>
-    match nextStatement f p with
-    | (.eof, p) => (none, p)
-    | (.brace _ _ _, p) => (some acc, p)
-    | (.stmt s, p) => blockLoop f (acc ++ [s]) p
+    let r := nextStatement f p
+    match r.1 with
+    | .eof => (none, r.2)
+    | .brace _ _ _ => (some acc, r.2)
+    | .stmt s => blockLoop f (acc ++ [s]) r.2
 end
 
 /-- the `for` loop of `Parse` -/
 def topLoop : Nat → List Statement → Parser σ → List Statement × Parser σ
   | 0, acc, p => (acc, { p with fault := .outOfFuel })
   | f + 1, acc, p =>
-    match nextStatement S f p with
-    | (.eof, p) => (acc, p)
-    | (.brace file line col, p) =>
-      topLoop f acc (addErr S { file := file, pos := some (line, col), cls := .unexpectedRBrace } p)
-    | (.stmt s, p) => topLoop f (acc ++ [s]) p
+    let r := nextStatement S f p
+    match r.1 with
+    | .eof => (acc, r.2)
+    | .brace file line col =>
+      topLoop f acc (addErr S { file := file, pos := some (line, col), cls := .unexpectedRBrace } r.2)
+    | .stmt s => topLoop f (acc ++ [s]) r.2
 
 /-- `checkStatementDepthIsZero` (prints `lex.col` as it is, without the `+ 1`) -/
 def checkStatementDepthIsZero (p : Parser σ) : Parser σ :=
   if ¬ (S.errs p.src).isEmpty || p.depth = 0 then p
   else
-    let (file, line, col) := S.endLoc p.src
-    addErr S { file := file, pos := some (line, col), cls := .missingBraces p.depth } p
+    addErr S { file := (S.endLoc p.src).1, pos := some ((S.endLoc p.src).2.1, (S.endLoc p.src).2.2),
+               cls := .missingBraces p.depth } p
 
 /-- `Parse` over a source in its initial state -/
 def parseWith (fuel : Nat) (s : σ) : ParseResult :=
-  let p : Parser σ := { src := s, tokens := [], depth := 0, fault := .none }
-  let (statements, p) := topLoop S fuel [] p
-  let p := checkStatementDepthIsZero S p
+  let r := topLoop S fuel [] { src := s, tokens := [], depth := 0, fault := .none }
+  let p := checkStatementDepthIsZero S r.2
   if p.fault ≠ .none then .fault p.fault
   else if S.fault p.src ≠ .none then .fault (S.fault p.src)
-  else if (S.errs p.src).isEmpty then .ok statements
+  else if (S.errs p.src).isEmpty then .ok r.1
   else .rejected (S.errs p.src)
 
 end generic
 
 /-- the loop `for { if t := p.lex.NextToken(); t.Code() != tError { return t } }`.
-Fuel: queued tokens + unread bytes + 3 (a token that is not yet queued costs at least one unread
-byte, except the one a state function may queue when it meets the end of input and stops). -/
+Fuel: queued tokens + unconsumed bytes + 2 (a token that is not yet queued costs at least one
+unconsumed byte, except the one a state function may queue when it meets the end of input and stops). -/
 def skipErrors : Nat → Lexer → Option Token × Lexer
   | 0, l => (none, setFault .outOfFuel l)
   | f + 1, l =>
-    match nextToken l with
-    | (none, l) => (none, l)
-    | (some t, l) => if t.code = Code.error then skipErrors f l else (some t, l)
+    let r := nextToken l
+    match r.1 with
+    | none => (none, r.2)
+    | some t => if t.code = Code.error then skipErrors f r.2 else (some t, r.2)
 
 /-- the lexer as token source -/
 def lexSource : Source Lexer where
-  pull b l := let l := { l with inPattern := b }; skipErrors (l.items.length + l.rest.length + 3) l
+  pull b l := skipErrors (l.items.length + l.rest.length + (l.pos - l.start) + 2) { l with inPattern := b }
   errs l := l.errout
   addErr e l := { l with errout := l.errout ++ [e] }
   endLoc l := (l.file, l.line, l.col)
